@@ -213,7 +213,7 @@ def advertised_suite(ctx):
                         lw = 16 if leeway is None else leeway
                         dsec = info['d'] / info['timescale']
                         need = (dsec / 2 + 0.01) if kind == 'time' else 2 * dsec + 1
-                        cls = 'leeway' if lw < need else 'number-window'
+                        cls = 'leeway' if lw < need else ('number-window' if kind == 'time' else None)
                     ctx.violation('advertised %s segment %s answers %d at the instant of the manifest' % (kind, local_path(u), rr.status_code),
                                   {'manifest': url, 'now': now.isoformat(), 'url': local_path(u)}, key=cls)
     ctx.oblige('http:advertised-urls-fetched', True, '%d advertised URLs fetched' % n_req)
